@@ -267,7 +267,8 @@ func checkC11(c *hx.Ctx) {
 		}
 	})
 	c11ThroughBatchFiles(c)
-	c.Floor("batch_file_rounds_with_recover_and_update", 20)
+	c.Floor("batch_file_rounds_with_recover_and_update", 10)
+	c.Floor("batch_file_rounds_with_deferred_request", 20)
 	c.Floor("batch_file_chains_with_suffix_data_type", 20)
 	for _, t := range ref.KeyTypes {
 		c.Floor("signed_with:"+t, 20)
@@ -365,25 +366,37 @@ func c11ThroughBatchFiles(c *hx.Ctx) {
 			chains = append(chains, ch)
 		}
 		H := map[*chain][]*ref.Op{}
-		for round := 0; ; round++ {
+		next := map[*chain]int{}
+		for round := 0; round < 40; round++ {
 			var q []*operation.QueuedOperation
 			var kinds []string
+			type cand struct {
+				ch *chain
+				b  *BuiltOp
+			}
+			var cands []cand
 			order := []int{0, 1}
 			if r.Bool() {
 				order = []int{1, 0}
 			}
 			for _, ci := range order {
 				ch := chains[ci]
-				if round >= len(ch.built) {
+				if next[ch] >= len(ch.built) {
 					continue
 				}
-				b := ch.built[round]
-				q = append(q, &operation.QueuedOperation{Type: operation.Type(b.Desc.Type), OperationRequest: b.Req, UniqueSuffix: ch.d.Suffix, Namespace: hx.Namespace})
-				kinds = append(kinds, b.Desc.Type)
-				H[ch] = append(H[ch], Place(b.Desc, uint64(1000+10*round), uint64(round%4), fmt.Sprintf("ref%d", round), p.GenesisTime))
+				cands = append(cands, cand{ch, ch.built[next[ch]]})
+				// two consecutive requests of one DID sent back to back land in the same cut: the second one is deferred by
+				// the handler and has to go into the next batch
+				if next[ch]+1 < len(ch.built) && r.Chance(1, 3) {
+					cands = append(cands, cand{ch, ch.built[next[ch]+1]})
+				}
 			}
-			if len(q) == 0 {
+			if len(cands) == 0 {
 				break
+			}
+			for _, cd := range cands {
+				q = append(q, &operation.QueuedOperation{Type: operation.Type(cd.b.Desc.Type), OperationRequest: cd.b.Req, UniqueSuffix: cd.ch.d.Suffix, Namespace: hx.Namespace})
+				kinds = append(kinds, cd.b.Desc.Type)
 			}
 			c.Eval()
 			replay := map[string]interface{}{"round": round, "batch": kinds}
@@ -392,13 +405,31 @@ func c11ThroughBatchFiles(c *hx.Ctx) {
 				c.Violation(fmt.Sprintf("C11 batch of client-built requests %v refused by the operation handler: %v", kinds, err), replay)
 				return
 			}
+			deferred := map[string]bool{}
+			for _, a := range info.AdditionalOperations {
+				deferred[string(a.OperationRequest)] = true
+			}
+			if len(info.ExpiredOperations) != 0 {
+				c.Violation(fmt.Sprintf("C11 the operation handler discarded %d client-built requests without window as expired", len(info.ExpiredOperations)), replay)
+				return
+			}
+			var includedKinds []string
+			for _, cd := range cands {
+				if deferred[string(cd.b.Req)] {
+					c.Count("batch_file_rounds_with_deferred_request")
+					continue
+				}
+				H[cd.ch] = append(H[cd.ch], Place(cd.b.Desc, uint64(1000+10*round), uint64(round%4), fmt.Sprintf("ref%d", round), p.GenesisTime))
+				next[cd.ch]++
+				includedKinds = append(includedKinds, cd.b.Desc.Type)
+			}
 			t := txn.SidetreeTxn{Namespace: hx.Namespace, AnchorString: info.AnchorString, TransactionTime: uint64(1000 + 10*round), TransactionNumber: uint64(round % 4),
 				ProtocolVersion: p.GenesisTime, CanonicalReference: fmt.Sprintf("ref%d", round)}
 			if _, err := v.TxnProc.Process(t); err != nil {
-				c.Violation(fmt.Sprintf("C11 anchored batch of client-built requests %v cannot be processed: %v", kinds, err), replay)
+				c.Violation(fmt.Sprintf("C11 anchored batch of client-built requests %v (included %v) cannot be processed: %v", kinds, includedKinds, err), replay)
 				return
 			}
-			if len(kinds) == 2 && ((kinds[0] == "recover" && kinds[1] == "update") || (kinds[0] == "update" && kinds[1] == "recover")) {
+			if len(includedKinds) == 2 && ((includedKinds[0] == "recover" && includedKinds[1] == "update") || (includedKinds[0] == "update" && includedKinds[1] == "recover")) {
 				c.Count("batch_file_rounds_with_recover_and_update")
 			}
 			for _, ch := range chains {
@@ -414,6 +445,12 @@ func c11ThroughBatchFiles(c *hx.Ctx) {
 				}
 			}
 			c.Count("batch_file_rounds")
+		}
+		for _, ch := range chains {
+			if next[ch] != len(ch.built) {
+				c.Violation(fmt.Sprintf("C11 %d client-built requests of a chain were never included in a batch", len(ch.built)-next[ch]), nil)
+				return
+			}
 		}
 		c.Distinct(fmt.Sprintf("bf|%v|%v", labelsOf(H[chains[0]]), labelsOf(H[chains[1]])))
 	})
